@@ -3,6 +3,8 @@ From Coq Require Import String ZifyN ZifyBool ZifyNat Permutation.
 From Slock Require Import Engine.Types Engine.Queues Engine.Timers Engine.Engine Engine.Engine2 Engine.InvDef Engine.InvBase.
 Open Scope N_scope.
 
+Ltac gs := cbn [g_xt g_xe g_pend g_owe g_ph g_pre g_dk g_lk g_dl g_cl g_cw set eta_ghost] in *.
+
 Definition liveb (l : lockrec) : Z := if l_timeouted l then 0%Z else 1%Z.
 
 Lemma key_cnt_aset k st r l l' : awf st -> aget st r = Some l -> l_key l' = l_key l ->
@@ -675,8 +677,7 @@ Proof.
       rewrite ?S1, ?S2, ?S3, ?S4, ?S5, ?S6; auto.
     intros Hl Hp. destruct (Ht Hl Hp) as [-> ->]. apply A8; auto.
   - rewrite S3. destruct (l_key l =? g_dk g); lia.
-  - rewrite S3. auto.
-  - rewrite S3. auto.
+  - rewrite S3, S7. auto.
   - rewrite S3. intros Hi. pose proof (gi_ph _ _ G r Hi) as Z. rewrite (getl_some _ _ _ Hr) in Z. auto.
   - apply (gi_phle _ _ G).
   - unfold liveb. rewrite S4. lia.
@@ -692,4 +693,222 @@ Proof.
 Qed.
 
 Lemma same_rel_refl l : same_rel l l.
-Proof. repeat split; auto. Qed.
+Proof. unfold same_rel. intuition. Qed.
+
+(* ---------------------------------------------------------------- manager updates that keep the lists *)
+Lemma holders_eq m m' : m_cur m' = m_cur m -> m_locks m' = m_locks m -> holders m' = holders m /\ m_hq m' = m_hq m.
+Proof. unfold holders, cur_list, m_hq. intros -> ->. auto. Qed.
+Lemma m_wq_eq m m' : m_wait m' = m_wait m -> m_wq m' = m_wq m.
+Proof. unfold m_wq. intros ->. auto. Qed.
+
+Lemma setm_scalar s g k m m' :
+  GInv s g -> aget (mgrs s) k = Some m ->
+  m_ref m' = m_ref m -> m_cur m' = m_cur m -> m_locks m' = m_locks m -> m_wait m' = m_wait m ->
+  m_locked m' < 4294967296 -> (m_locked m' = m_locked m \/ k = g_dk g) ->
+  GInv (setm s k m') (g <| g_dl := (g_dl g + (Z.of_N (m_locked m) - Z.of_N (m_locked m')))%Z |>
+                        <| g_cl := (g_cl g + Z.of_N (m_locked m') - Z.of_N (m_locked m))%Z |>).
+Proof.
+  intros G Hm E1 E2 E3 E4 Hb Hk.
+  destruct (holders_eq m m' E2 E3) as [Hh Hq]. pose proof (m_wq_eq m m' E4) as Hw.
+  destruct (gi_mgr _ _ G k m Hm) as [B1 B2 B3 B4 B5 B6 B7 B8 B9 Bb B10].
+  eapply setm_ginv; eauto; gs.
+  - intros Hne. destruct Hk as [Hk|Hk]; [|congruence]. repeat split; auto. lia.
+  - constructor; rewrite ?Hh, ?Hw, ?Hq, ?E1, ?E2, ?E3; auto.
+    + unfold dlk in *. gs. change (sumdepth (setm s k m') (holders m)) with (sumdepth s (holders m)).
+      destruct (k =? g_dk g) eqn:E; [lia|]. apply N.eqb_neq in E. destruct Hk as [Hk|Hk]; [|congruence]. lia.
+    + split; [tauto|auto].
+  - intros r0 l0 H0 Hk0. rewrite Hh, Hw. split; [lia|].
+    destruct (gi_rec _ _ G r0 l0 H0) as [A1 A2 A3 A4 A5 A6 A7 A8 A9 A10 A11].
+    rewrite Hk0, (getm_some _ _ _ Hm) in *. split.
+    + intros Ht. destruct (A6 Ht) as [Q1 [Q2 [Q3 Q4]]]. auto.
+    + auto.
+  - apply (gi_ph _ _ G).
+  - intros ->. rewrite Hh, Hw. intros r0. pose proof (gi_phle _ _ G r0) as P. rewrite (getm_some _ _ _ Hm) in P. auto.
+Qed.
+
+Lemma updm_scalar s g k f :
+  GInv s g ->
+  (forall m, m_ref (f m) = m_ref m /\ m_cur (f m) = m_cur m /\ m_locks (f m) = m_locks m /\ m_wait (f m) = m_wait m
+             /\ m_locked (f m) = m_locked m) ->
+  GInv (updm s k f) g.
+Proof.
+  intros G H. unfold updm. destruct (aget (mgrs s) k) as [m|] eqn:Hm; auto.
+  destruct (H m) as [E1 [E2 [E3 [E4 E5]]]].
+  pose proof (mo_bnd _ _ _ _ (gi_mgr _ _ G k m Hm)) as [_ Bb].
+  pose proof (setm_scalar s g k m (f m) G Hm E1 E2 E3 E4) as P. rewrite E5 in P. specialize (P Bb (or_introl eq_refl)).
+  eapply ginv_obs; eauto; gs; lia.
+Qed.
+
+Lemma mgr_ok_geq s g g' k m : g_ph g' = g_ph g -> g_dk g' = g_dk g -> g_lk g' = g_lk g -> g_dl g' = g_dl g ->
+  mgr_ok s g k m -> mgr_ok s g' k m.
+Proof.
+  intros F5 F7 F8 F9 [B1 B2 B3 B4 B5 B6 B7 B8 B9 Bb B10].
+  assert (P1 : phk g' k = phk g k) by (apply phk_eq; auto).
+  assert (P3 : lkk g' k = lkk g k) by (apply lkk_eq; auto).
+  assert (P2 : dlk g' k = dlk g k) by (unfold dlk; rewrite F7, F9; auto).
+  constructor; rewrite ?P1, ?P2, ?P3; auto.
+Qed.
+
+(* ---------------------------------------------------------------- ghost bookkeeping *)
+Lemma ginv_geq s g g' : GInv s g -> g' = g -> GInv s g'.
+Proof. intros G ->. auto. Qed.
+
+Lemma ginv_set_dk s g k : GInv s g -> g_ph g = [] -> g_dl g = 0%Z -> g_lk g = false ->
+  GInv s (g <| g_dk := k |>).
+Proof.
+  intros G Hp Hd Hl.
+  destruct G as [W1 W2 W3 W4 W5 W6 L R M S P PL N1 N2 N3].
+  constructor; auto.
+  - intros r0 l0 H. destruct (R r0 l0 H) as [A1 A2 A3 A4 A5 A6 A7 A8 A9 A10 A11]. constructor; auto.
+  - intros k0 m0 H. destruct (M k0 m0 H) as [B1 B2 B3 B4 B5 B6 B7 B8 B9 Bb B10].
+    assert (P1 : phk (g <| g_dk := k |>) k0 = []) by (unfold phk; gs; rewrite Hp; destruct (k0 =? k); auto).
+    assert (P1' : phk g k0 = []) by (unfold phk; rewrite Hp; destruct (k0 =? g_dk g); auto).
+    assert (P2 : dlk (g <| g_dk := k |>) k0 = 0%Z) by (unfold dlk; gs; rewrite Hd; destruct (k0 =? k); auto).
+    assert (P2' : dlk g k0 = 0%Z) by (unfold dlk; rewrite Hd; destruct (k0 =? g_dk g); auto).
+    assert (P3 : lkk (g <| g_dk := k |>) k0 = false) by (unfold lkk; gs; rewrite Hl; destruct (k0 =? k); auto).
+    assert (P3' : lkk g k0 = false) by (unfold lkk; rewrite Hl; destruct (k0 =? g_dk g); auto).
+    rewrite P1' in B1. rewrite P2' in B6.
+    constructor; rewrite ?P1, ?P2; auto.
+  - intros r. gs. rewrite Hp. simpl. lia.
+Qed.
+
+(* pending-bucket exemption can always be widened *)
+Lemma ginv_pend_add s g r : GInv s g -> GInv s (g <| g_pend := r :: g_pend g |>).
+Proof.
+  intros G. destruct G as [W1 W2 W3 W4 W5 W6 L R M S P PL N1 N2 N3].
+  constructor; auto.
+  - intros r0 l0 H. destruct (R r0 l0 H) as [A1 A2 A3 A4 A5 A6 A7 A8 A9 A10 A11].
+  constructor; auto. gs. intros Hl Hp. apply A8; auto. simpl in Hp. lia.
+  - intros k0 m0 H. apply (mgr_ok_geq s g); auto.
+Qed.
+
+(* ... and narrowed for a record that is not long-queued, or whose bucket entry is in place *)
+Lemma ginv_pend_drop s g r rest : GInv s g -> g_pend g = r :: rest ->
+  (forall l, aget (store s) r = Some l -> l_long l = true -> occ r rest = O ->
+     (l_timeouted l = false -> occ r (wheel_get (tlong s) (lkey (l_tT l))) = 1%nat)
+     /\ (l_timeouted l = true -> occ r (wheel_get (elong s) (lkey (l_eT l))) = 1%nat)) ->
+  GInv s (g <| g_pend := rest |>).
+Proof.
+  intros G Hp Hr. destruct G as [W1 W2 W3 W4 W5 W6 L R M S P PL N1 N2 N3].
+  constructor; auto.
+  - intros r0 l0 H. destruct (R r0 l0 H) as [A1 A2 A3 A4 A5 A6 A7 A8 A9 A10 A11].
+    constructor; auto. gs. intros Hl Hp0. destruct (N.eq_dec r0 r) as [->|Hne].
+    + apply Hr; auto.
+    + apply A8; auto. rewrite Hp. rewrite occ_cons_ne; auto.
+  - intros k0 m0 H. apply (mgr_ok_geq s g); auto.
+Qed.
+
+(* ---------------------------------------------------------------- states equal up to value data / persisted flags *)
+Definition lsame (l l' : lockrec) : Prop := l' = l <| l_data := l_data l' |> <| l_isaof := l_isaof l' |>.
+Definition msame (m m' : mgr) : Prop := m' = m <| m_data := m_data m' |>.
+Definition orel {A} (R : A -> A -> Prop) (a b : option A) : Prop :=
+  match a, b with Some x, Some y => R x y | None, None => True | _, _ => False end.
+
+Record sim (s s' : db) : Prop := mkSim {
+  sim_l : forall r, orel lsame (aget (store s) r) (aget (store s') r);
+  sim_m : forall k, orel msame (aget (mgrs s) k) (aget (mgrs s') k);
+  sim_tw : twheel s' = twheel s; sim_tl : tlong s' = tlong s; sim_ew : ewheel s' = ewheel s; sim_el : elong s' = elong s;
+  sim_next : next s' = next s; sim_cnt : cnt s' = cnt s; sim_now : now s' = now s; sim_leader : leader s' = leader s;
+  sim_ct : checkT s' = checkT s; sim_ce : checkE s' = checkE s; sim_cfg : cfg_aoftime s' = cfg_aoftime s
+}.
+
+Lemma lsame_refl l : lsame l l.  Proof. destruct l; reflexivity. Qed.
+Lemma msame_refl m : msame m m.  Proof. destruct m; reflexivity. Qed.
+Lemma lsame_trans a b c : lsame a b -> lsame b c -> lsame a c.
+Proof. unfold lsame. intros H1 H2. rewrite H2. rewrite H1 at 1. destruct a; reflexivity. Qed.
+Lemma msame_trans a b c : msame a b -> msame b c -> msame a c.
+Proof. unfold msame. intros H1 H2. rewrite H2. rewrite H1 at 1. destruct a; reflexivity. Qed.
+
+Lemma sim_refl s : sim s s.
+Proof.
+  constructor; auto.
+  - intros r. unfold orel. destruct (aget (store s) r); auto. apply lsame_refl.
+  - intros k. unfold orel. destruct (aget (mgrs s) k); auto. apply msame_refl.
+Qed.
+Lemma sim_trans a b c : sim a b -> sim b c -> sim a c.
+Proof.
+  intros [L1 M1 A1 A2 A3 A4 A5 A6 A7 A8 A9 A10 A11] [L2 M2 B1 B2 B3 B4 B5 B6 B7 B8 B9 B10 B11].
+  constructor; try congruence.
+  - intros r. specialize (L1 r). specialize (L2 r). unfold orel in *.
+    destruct (aget (store a) r), (aget (store b) r), (aget (store c) r); try tauto. eapply lsame_trans; eauto.
+  - intros k. specialize (M1 k). specialize (M2 k). unfold orel in *.
+    destruct (aget (mgrs a) k), (aget (mgrs b) k), (aget (mgrs c) k); try tauto. eapply msame_trans; eauto.
+Qed.
+
+Lemma sim_updl s r f : (forall l, lsame l (f l)) -> sim s (updl s r f).
+Proof.
+  intros H. unfold updl. destruct (aget (store s) r) as [l|] eqn:E; [|apply sim_refl].
+  constructor; auto.
+  - intros r0. rewrite store_setl, aget_aset. destruct (r =? r0) eqn:E2.
+    + apply N.eqb_eq in E2; subst. rewrite E. simpl. auto.
+    + unfold orel. destruct (aget (store s) r0); auto. apply lsame_refl.
+  - intros k. unfold orel. change (mgrs (setl s r (f l))) with (mgrs s). destruct (aget (mgrs s) k); auto. apply msame_refl.
+Qed.
+Lemma sim_updm s k f : (forall m, msame m (f m)) -> sim s (updm s k f).
+Proof.
+  intros H. unfold updm. destruct (aget (mgrs s) k) as [m|] eqn:E; [|apply sim_refl].
+  constructor; auto.
+  - intros r0. unfold orel. change (store (setm s k (f m))) with (store s). destruct (aget (store s) r0); auto. apply lsame_refl.
+  - intros k0. rewrite mgrs_setm, aget_aset. destruct (k =? k0) eqn:E2.
+    + apply N.eqb_eq in E2; subst. rewrite E. simpl. auto.
+    + unfold orel. destruct (aget (mgrs s) k0); auto. apply msame_refl.
+Qed.
+
+Lemma sim_getl s s' r : sim s s' -> lsame (getl s r) (getl s' r).
+Proof. intros H. pose proof (sim_l _ _ H r) as P. unfold getl, orel in *.
+  destruct (aget (store s) r), (aget (store s') r); try tauto. apply lsame_refl. Qed.
+Lemma sim_getm s s' k : sim s s' -> msame (getm s k) (getm s' k).
+Proof. intros H. pose proof (sim_m _ _ H k) as P. unfold getm, orel in *.
+  destruct (aget (mgrs s) k), (aget (mgrs s') k); try tauto. apply msame_refl. Qed.
+Lemma sim_stored s s' r l : sim s s' -> aget (store s) r = Some l -> exists l', aget (store s') r = Some l' /\ lsame l l'.
+Proof. intros H E. pose proof (sim_l _ _ H r) as P. rewrite E in P. unfold orel in P.
+  destruct (aget (store s') r) as [l'|]; [eauto|tauto]. Qed.
+Lemma sim_mgr s s' k m : sim s s' -> aget (mgrs s) k = Some m -> exists m', aget (mgrs s') k = Some m' /\ msame m m'.
+Proof. intros H E. pose proof (sim_m _ _ H k) as P. rewrite E in P. unfold orel in P.
+  destruct (aget (mgrs s') k) as [m'|]; [eauto|tauto]. Qed.
+
+(* irrelevant record / manager updates, as used by the AOF pushes *)
+Lemma lsame_same_rel l l' : lsame l l' -> same_rel l l' /\ l_tT l' = l_tT l /\ l_eT l' = l_eT l.
+Proof. unfold lsame, same_rel. intros ->. destruct l; cbn. intuition. Qed.
+
+Lemma updl_lsame_ginv s g r f : GInv s g -> (forall l, lsame l (f l)) -> GInv (updl s r f) g.
+Proof. intros G H. apply updl_irrel; auto. intros l _. destruct (lsame_same_rel _ _ (H l)) as [A [B C]]. auto. Qed.
+Lemma updm_msame_ginv s g k f : GInv s g -> (forall m, msame m (f m)) -> GInv (updm s k f) g.
+Proof. intros G H. apply updm_scalar; auto. intros m. rewrite (H m). destruct m; cbn. auto. Qed.
+
+Lemma push_lock_aof_ok s g k r fl : GInv s g ->
+  GInv (fst (push_lock_aof s k r fl)) g /\ sim s (fst (push_lock_aof s k r fl)).
+Proof.
+  intros G. unfold push_lock_aof. destruct (negb (leader s)); [split; [auto|apply sim_refl]|].
+  destruct (has (c_flag (l_cmd (getl s r))) LOCK_FLAG_FROM_AOF).
+  - cbn [fst]. split; [apply updl_lsame_ginv; auto|apply sim_updl]; intros l; destruct l; reflexivity.
+  - destruct (aof_lock_data true (m_data (getm s k)) (l_data (getl s r))) as [[data cur'] ld']. cbn [fst].
+    split.
+    + apply updl_lsame_ginv; [apply updl_lsame_ginv; [apply updm_msame_ginv; auto|]|]; intros l; destruct l; reflexivity.
+    + eapply sim_trans; [eapply sim_trans; [apply sim_updm|apply sim_updl]|apply sim_updl]; intros l; destruct l; reflexivity.
+Qed.
+
+Lemma push_unlock_aof_ok s g k r lc uc isaof fl : GInv s g ->
+  GInv (fst (push_unlock_aof s k r lc uc isaof fl)) g /\ sim s (fst (push_unlock_aof s k r lc uc isaof fl)).
+Proof.
+  intros G. unfold push_unlock_aof. destruct (negb (leader s)); [split; [auto|apply sim_refl]|].
+  destruct (match uc with Some u => has (c_flag u) UNLOCK_FLAG_FROM_AOF | None => false end).
+  - cbn [fst]. split; [apply updl_lsame_ginv; auto|apply sim_updl]; intros l; destruct l; reflexivity.
+  - destruct (aof_lock_data false (m_data (getm s k)) (l_data (getl s r))) as [[data cur'] ld']. cbn [fst].
+    split.
+    + apply updl_lsame_ginv; [apply updl_lsame_ginv; [apply updm_msame_ginv; auto|]|]; intros l; destruct l; reflexivity.
+    + eapply sim_trans; [eapply sim_trans; [apply sim_updm|apply sim_updl]|apply sim_updl]; intros l; destruct l; reflexivity.
+Qed.
+
+Lemma repeat_push_lock_aof_ok n s g k r : GInv s g ->
+  GInv (fst (repeat_push_lock_aof n s k r)) g /\ sim s (fst (repeat_push_lock_aof n s k r)).
+Proof.
+  revert s. induction n as [|n IH]; intros s G; simpl; [split; [auto|apply sim_refl]|].
+  destruct (push_lock_aof_ok s g k r 0 G) as [G1 S1].
+  destruct (push_lock_aof s k r 0) as [s1 e1]. cbn [fst] in *.
+  destruct (IH s1 G1) as [G2 S2]. destruct (repeat_push_lock_aof n s1 k r) as [s2 e2]. cbn [fst] in *.
+  split; auto. eapply sim_trans; eauto.
+Qed.
+
+Lemma process_data_core s k r c recov : c_data c = None -> process_data s k r c recov = (s, []).
+Proof. intros H. unfold process_data. rewrite H. reflexivity. Qed.
